@@ -13,7 +13,7 @@ package lr1
 //@ pure func wfAction(a *Action) bool = !isnil(a) && (forall i int :: {a.Prods[i]} 0 <= i && i < len(a.Prods) ==> !isnil(a.Prods[i])) && (a.Type == ActionReduce ==> len(a.Prods) == 1)
 //
 // remove(action): the closure deletes every occurrence of action from the cell.
-//@ func resolveConflicts$1$1
+//@ func resolveConflicts$resolveConflict$remove
 //@   requires !isnil(actions) && len(actions.elems) == 2 && actions.elems[0] != actions.elems[1]
 //@   requires action == actions.elems[0] || action == actions.elems[1]
 //@   ensures len(actions.elems) == 1 && actions.elems[0] == ite(action == old(actions.elems[0]), old(actions.elems[1]), old(actions.elems[0]))
@@ -22,7 +22,7 @@ package lr1
 //@   call Array.DeleteFunc 0 modifies actions.elems, actions.elems[0:2]
 //@   call Array.DeleteFunc 0 assume len(actions.elems) == 1 && actions.elems[0] == ite(action == old(actions.elems[0]), old(actions.elems[1]), old(actions.elems[0]))
 //
-//@ func resolveConflicts$1
+//@ func resolveConflicts$resolveConflict
 //@   requires !isnil(actions)
 //@   requires forall k int :: {actions.elems[k]} 0 <= k && k < len(actions.elems) ==> wfAction(actions.elems[k])
 //@   requires len(actions.elems) == 2 ==> actions.elems[0] != actions.elems[1]
